@@ -220,7 +220,7 @@ def read_lines(path):
 def decode_arg(a):
     if a == "-":
         return ""
-    if re.fullmatch(r"(?:[0-9a-f]{2})+", a):
+    if len(a) >= 8 and re.fullmatch(r"(?:[0-9a-f]{2})+", a):
         try:
             return bytes.fromhex(a).decode("utf-8", errors="backslashreplace")
         except ValueError:
